@@ -28,7 +28,7 @@ import itertools
 import re
 
 from .core import AnalysisError
-from .objmodel import ClassModel, new_parser_state
+from .objmodel import ClassModel, install_re, new_parser_state
 from .ordabs import Ev, ModelRaise, Obj, Sym, Unsupported
 from .repo import Repo
 
@@ -44,25 +44,9 @@ INPUT = "abcdefghij"
 
 def program(repo: Repo, where: str) -> ClassModel:
     rels = [r for r in RELS if r in repo.py_files]
-    restub = Obj("re", I=re.I, IGNORECASE=re.I, A=re.A, ASCII=re.A, VERSION1=256, V1=256)
+    restub = Obj("re")
     cm = ClassModel(repo, rels, where, {"re": restub, "Generic": None, "ChoiceCase": Sym("ChoiceCase")}, max_steps=60000)
-
-    def compile_(_s: Obj, pat: str, flags: int = 0) -> Obj:
-        rx = re.compile(pat, flags & (re.I | re.A | re.M | re.S))
-        o = Obj("Pattern", pattern=pat, flags=flags)
-
-        def wrap(m):  # noqa: ANN001, ANN202
-            if m is None:
-                return None
-            mo = Obj("Match")
-            mo.__dict__.update(group=lambda *a: m.group(*a), end=lambda *a: m.end(*a), start=lambda *a: m.start(*a), __getitem__=lambda i: m[i])
-            return mo
-
-        o.__dict__.update(match=lambda s, *a: wrap(rx.match(s, *a)), fullmatch=lambda s, *a: wrap(rx.fullmatch(s, *a)), search=lambda s, *a: wrap(rx.search(s, *a)))
-        return o
-
-    cm._cache[("re", "compile")] = compile_  # noqa: SLF001
-    cm._cache[("re", "escape")] = lambda _s, x: re.escape(x)  # noqa: SLF001
+    install_re(cm)
     cm._cache[("OracleExpr", "__str__")] = lambda o: "CHILD"  # noqa: SLF001
     for need in ("ParserState", "Stack", "SnapshottingInt"):
         if need not in cm.classes:
